@@ -21,7 +21,7 @@ import os
 import shutil
 import tempfile
 
-from ..explore import Res
+from ..explore import Product, Res
 from ..fsshim import shim
 
 ID = "C17"
@@ -577,6 +577,58 @@ def check_tasks(case) -> Res:
                transitions=n_sched)
 
 
+# ------------------------------------------------------------------ (d) one writer + an external modification that lands between its steps
+def check_external_edit(case) -> Res:
+    """base_hash = hash of the file at entry; the environment rewrites the file immediately before in-scope call k (different size; and
+    same size with the file times kept, as rsync -t / cp -p do).  If that happens before the LAST read of the target that precedes
+    the install step, the content no longer hashes to base_hash when it is installed: the call must fail and leave the environment's bytes."""
+    from . import c16
+    entry, kind, keep = case
+    sc = dict(entry=entry, kind=kind, base="match", parent="present", fmode=0o644)
+    c16._root()
+    sb, target, prev, pmode = c16.prepare(sc)
+    ref = shim.run_child(c16.make_call(sc, target, prev), sb, target)
+    if ref["raised"] or not isinstance(ref["result"], dict) or ref["result"].get("status") != "success":
+        return Res("reference-failed", violations=[dict(descriptor="external-edit:fault-free-run-failed", case=dict(scenario=sc), observed=str(ref["raised"] or ref["result"])[:200], expected="success")])
+    log = [e for e in ref["log"] if e["k"] >= 0]
+    k_install = min([e["k"] for e in log if e["op"] == "rename" and e["arg"] == target] + [len(log) - 1])
+    ext = c16.EXTERNAL if not keep else (c16.EXTERNAL + " " * 4096)[: len((prev or "").encode("utf-8"))]
+    if keep and len(ext.encode()) != len((prev or "").encode()):
+        ext = ("===D===\nK::" + "e" * 4096)[: len(prev.encode()) - 1] + "\n"
+    viol = {}
+    n = 0
+    outs = []
+    for k in range(k_install + 1):
+        sb, target, prev2, pm2 = c16.prepare(sc)
+        r = shim.run_child(c16.make_call(sc, target, prev2), sb, target, mode=shim.LOG | shim.EDIT, edit=(k, target, ext, keep))
+        n += 1
+        lg = [e for e in r["log"] if e["k"] >= 0]
+        if not any(e["op"] == "EDIT" for e in lg):
+            continue
+        renames = [e["k"] for e in lg if e["op"] == "rename" and e["arg"] == target and e["result"] == 0]
+        k_ren = renames[0] if renames else 10 ** 9
+        # "at the moment the new content is installed": the check must not be older than the finished temp file - a modification that
+        # lands before the temp file is synced (or, lacking a sync, before the last open of the target that precedes the install
+        # step) is one the call has to notice
+        syncs = [e["k"] for e in lg if e["op"] == "fsync" and e["path"].endswith(".tmp") and e["k"] < k_ren]
+        opens = [e["k"] for e in lg if e["op"] in ("open", "openat", "fopen") and e["path"] == target and e["k"] < k_ren and e["result"] >= 0]
+        last_read = max(syncs + opens) if (syncs or opens) else -1
+        tb = open(target, "rb").read() if os.path.exists(target) else None
+        res = r["result"] if isinstance(r["result"], dict) else {}
+        st = res.get("status")
+        outs.append((entry, kind, keep, k, st))
+        if r["raised"]:
+            viol.setdefault("raised", dict(descriptor=f"external-edit:{entry}:{kind}:call-raised", case=dict(scenario=sc, edit_before_call=k, keep_times=keep), observed=r["raised"][:200], expected="an envelope"))
+        elif k <= last_read and st == "success":
+            viol.setdefault("lost", dict(descriptor=f"external-edit:{entry}:{kind}:success-although-the-file-changed-before-the-last-re-read{':times-kept' if keep else ''}",
+                                         case=dict(scenario=sc, edit_before_call=k, keep_times=keep, last_read_of_target=last_read),
+                                         observed=f"status=success file={tb!r}"[:300], expected="E_HASH: the content did not hash to base_hash when it was installed"))
+        elif st == "error" and tb != ext.encode("utf-8"):
+            viol.setdefault("touched", dict(descriptor=f"external-edit:{entry}:{kind}:error-but-file-is-not-the-environments", case=dict(scenario=sc, edit_before_call=k, keep_times=keep),
+                                            observed=f"{tb!r}"[:300], expected="the externally written bytes"))
+    return Res("ok" if not viol else "violations", extra_nontrivial=outs, violations=list(viol.values()), transitions=n)
+
+
 def run(ctx):
     depth = 4 if ctx.quick else 6
     # (a) run in the parent (small) so that the state/transition counts are measured exactly
@@ -607,6 +659,10 @@ def run(ctx):
     finals_all = {}
     sts = ctx.explore("schedules.two_processes", [list(p) for p in pairs], check_pair_res, chunk=1)
     # (c) tasks
+    ctx.explore("external_edit", Product(["tool", "atomic", "cli"], ["overwrite"], [False, True]) if ctx.quick else
+                Product(["tool", "atomic", "cli"], ["overwrite", "overwrite_big"], [False, True]), check_external_edit, chunk=1)
+    from . import c16 as _c16
+    _c16._cleanup()
     ctx.explore("schedules.asyncio_tasks", [list(p) for p in PAIRS if "atomic" not in p], check_tasks, chunk=1)
     n_sched_states = len([1 for x in sts.nontrivial])
     ctx.coverage.update({
@@ -623,6 +679,12 @@ def run(ctx):
 def replay(ctx, rp):
     c = rp["case"]
     try:
+        if "edit_before_call" in c:
+            from . import c16
+            try:
+                return check_external_edit((c["scenario"]["entry"], c["scenario"]["kind"], bool(c.get("keep_times")))).violations
+            finally:
+                c16._cleanup()
         if "kind" in c and "layout" in c:
             return check_tree_untouched((c["kind"], c["layout"], c["existing"])).violations
         if "history" in c:
